@@ -93,7 +93,7 @@ def gen_param(rnd, base=None):
         outside = [k for k in range(len(p["cps"])) if not any(k in x["cps"] for x in p["crosses"])]
         if p["crosses"] and outside and rnd.random() < 0.6:
             j = rnd.choice(outside)      # a coverpoint that no cross covers: only its own comparison can tell the shapes apart
-        if p["crosses"] and rnd.random() < 0.35:
+        if p["crosses"] and rnd.random() < 0.2:
             # the same covergroup, but this variant's cross is gated by an iff (CovergroupModel.equals does not look at it:
             # the instances share one type covergroup)
             p["crosses"][0]["iff"] = not p["crosses"][0].get("iff")
@@ -217,7 +217,7 @@ def judge(ctx, cases, obs, codes, stats):
 def run(ctx):
     core.check_prop_file(ctx, PROP_FILE)
     rnd = random.Random("C12-%d" % ctx.seed)
-    n = 160 if ctx.quick() else 3000
+    n = 300 if ctx.quick() else 3000
     cases = [gen_case(rnd) for _ in range(n)]
     stats = {"evaluations": 0, "zero_bins": 0}
     obs, codes = evaluate(ctx, cases, "c12")
